@@ -350,6 +350,32 @@ def span_nodest_scenarios(rng, tag, n):
     return out
 
 
+GOODLINE = "PROXY TCP4 192.0.2.7 192.0.2.1 40000 49\r\n\x00"
+HOSTILE_LINES = ["PROXY TCP4 192.0.2.7", "PROXY tcp6 a b c", "PROXY TCP4", "PROXY tcp 1 2", "PROXY UNKNOWN", "PROXY UNKNOWN a b", "PROXY", "PROXY ", "PROXY  ",
+                 "PROXY TCP4 1 2 3 4 5 6 7", "PROXY TCP4 192.0.2.7 192.0.2.1 40000", "PROXY TCP4 192.0.2.7 192.0.2.1 x y", "PROXY TCP4  192.0.2.1 40000 49",
+                 " PROXY TCP4 a b 1 2", "proxy tcp4 a b 1 2", "PROXYTCP4", "", "\r\n", "PROXY TCP4 " + "9" * 300 + " b 1 2", "PROXY \t TCP4"]
+
+
+def proxy_hostile_scenarios(rng, tag, n):
+    """the reference wiring on a server in proxy mode: a client with well-formed PROXY lines, then a client whose line is
+    hostile (too few / too many fields, unknown protocol, empty), then the first kind of client again (other clients keep
+    being served; the process survives). Found missing by the round-9 sub-agent of C14."""
+    out = []
+    for i in range(n):
+        cfg = base_cfg(rng, tag)
+        line = HOSTILE_LINES[i % len(HOSTILE_LINES)] + rng.choice(["\r\n\x00", "\x00", "\r\n\x00"])
+        good = session_steps(1, 0, pap_login("alice", "alice-pw-" + tag), fl=1)
+        bad = session_steps(2, 1, pap_login("alice", "alice-pw-" + tag), fl=1) + session_steps(2, 2, ascii_login("frank", "x", stop_after=1), fl=1)
+        again = session_steps(3, 3, pap_login("frank", "frank-pw-" + tag), fl=1)
+        for st in good + again:
+            st["pre"] = GOODLINE
+        for st in bad:
+            st["pre"] = line
+        out.append({"id": "pxline-%d" % i, "cfg": cfg, "conns": [{"c": 1, "addr": "10.1.0.5"}, {"c": 2, "addr": "10.1.0.6"}, {"c": 3, "addr": "10.1.0.7"}],
+                    "steps": good + bad + again, "iso": False, "log": False, "proxy": True})
+    return out
+
+
 def repeated_rule_scenarios(rng, tag, n):
     """command rules that are met again and again by the same request: a rule whose only pattern does not compile (the
     request is refused every time), and rules whose verdict depends on a word being there twice"""
@@ -881,6 +907,8 @@ def collect(ctx, prop):
         scen += repeated_rule_scenarios(rng, tag, 20 if quick else 300)
     if prop in ("C07", "C11"):
         scen += many_args_scenarios(rng, tag, 40 if quick else 600)
+    if prop in ("C14", "C07"):
+        scen += proxy_hostile_scenarios(rng, tag, 20 if quick else 100)
     if prop in ("C14", "C13"):
         scen += span_nodest_scenarios(rng, tag, 2 if quick else 4)
     if prop in ("C07", "C10", "C14"):
